@@ -6,3 +6,4 @@ for p in C01 C02 C03 C04 C05 C06 C07 C08 C09 C10 C11 C13; do
   echo "$p exit=$rc $(echo "$out" | grep -E "^$p:" | tail -1)"
   [ $rc -ne 0 ] && echo "$out" | grep -v "^NOTE\|KNOWN-F" | tail -5
 done
+exit 0
